@@ -313,7 +313,7 @@ def _reference_state(builtin, content):
 
 
 def r14h(chk, rid='R14.h'):
-    chk.rule(rid, 'inductive step on generic instances: the state prescribed for a registry content (macro environment = built-in macros + the macros of the registered profiles in order; every table = raw patterns expanded in that environment; names; known names; raw copies) is preserved by every registry operation. addProfile / addProfiles / removeProfile / _resetProperties (with the helpers they call, resolved in the class) are evaluated on their syntax trees from the prescribed state of a two-profile registry for each case their conditions distinguish - no macros, new macros, macros shadowing a built-in macro, macros shadowing another profile\'s macro, removing the first / the last / an unknown profile / all - and the resulting state is compared with the prescribed state of the new content')
+    chk.rule(rid, 'inductive step on generic instances: the state prescribed for a registry content (macro environment = built-in macros + the macros of the registered profiles in order; every table = raw patterns expanded in that environment; names; known names; raw copies) is preserved by every registry operation. addProfile / addProfiles / removeProfile / _resetProperties (with the helpers they call, resolved in the class) are evaluated on their syntax trees from the prescribed state of a two-profile registry for each case their conditions distinguish - no macros, new macros, macros shadowing a built-in macro, macros shadowing another profile\'s macro, removing the first / the last / an unknown profile / all - and the resulting state is compared with the prescribed state of the new content; short histories (add and remove again, then add another; remove all, then add) end in the prescribed state of their final content as well - attributes the class keeps besides the five tables are initialised by evaluating Profiles.__init__ and must not carry anything from one operation to the next')
     chk.assume("R14.h: the registry operations copy, merge and expand opaque pattern strings and branch only on the conditions the cases enumerate (macros given / shadowing / profile known / all), so the generic instances with pairwise distinct atoms determine their behaviour; _compile_regexes is modelled as identity, re as the interpreter's re on the model patterns")
     import copy
     import re as _re
@@ -337,11 +337,25 @@ def r14h(chk, rid='R14.h'):
     F = ('F', {'pf': 'f{mf}'}, {'mf': 'F1'})  # fresh macros
     S = ('S', {'ps': 's{%s}' % tok}, {tok: 'S-%s' % tok})  # shadows a built-in (and A's shadow of it)
     T = ('T', {'pt': 't{mb}'}, {'mb': 'T-mb'})  # shadows a macro of profile B
+    tok2 = sorted(builtin)[1]
+    S2 = ('S2', {'ps2': 's{%s}' % tok2}, {tok2: 'S2-%s' % tok2})  # shadows a built-in macro that no other profile shadows
     intr = {'re.search': _re.search, 're.sub': _re.sub, 're.compile': _re.compile, 'self._compile_regexes': lambda d: d}
 
+    # a registry object is what Profiles.__init__ makes of it (evaluated without its own bulk registration, so that
+    # attributes the class adds later are there), loaded with the prescribed state of the content
+    init = copy.deepcopy(m.get('Profiles.__init__'))
+    init.body = [st for st in init.body if not (isinstance(st, ast.Expr) and isinstance(st.value, ast.Call) and call_name(st.value) in ('self.addProfiles', 'self.addProfile'))]
+    if len(init.body) == len(m.get('Profiles.__init__').body):
+        raise AnalysisError('Profiles.__init__: the registration of the predefined profiles was not found')
+
     def registry(content):
-        st = copy.deepcopy(_reference_state(builtin, content))
-        return Record(_log=None, _defaultProfiles=None, **st)
+        me = Record()
+        res = Evaluator(init, intrinsics=intr, model_types=(_re.Pattern, _re.Match), module=m, cls='Profiles').run(self=me, log=None)
+        if isinstance(res, Raised):
+            raise AnalysisError(f'Profiles.__init__: {res!r}')
+        for k, v in copy.deepcopy(_reference_state(builtin, content)).items():
+            setattr(me, k, v)
+        return me
 
     def observe(me):
         return {'_usedMacros': dict(me._usedMacros), '_profileNames': list(me._profileNames),
@@ -374,8 +388,35 @@ def r14h(chk, rid='R14.h'):
                 detail += f'{k} is {g!r}, prescribed {w!r} '
         chk.ob(rid, P, f'Profiles.{fn_name}', label, ok, detail[:400])
 
+    def sequence(label, start, steps, want_content):
+        me = registry(start)
+        for fn_name, args in steps:
+            fn = m.get(f'Profiles.{fn_name}')
+            res = Evaluator(fn, intrinsics=intr, model_types=(_re.Pattern, _re.Match), module=m, cls='Profiles').run(self=me, **copy.deepcopy(args))
+            if isinstance(res, Raised):
+                chk.ob(rid, P, f'Profiles.{fn_name}', label, False, f'raises {res.kind}')
+                return
+        got = observe(me)
+        want = _reference_state(builtin, want_content)
+        diffs = [k for k in want if got[k] != want[k]]
+        detail = ''
+        for k in diffs[:2]:
+            g, w = got[k], want[k]
+            if isinstance(g, dict) and isinstance(w, dict):
+                keys = [x for x in sorted(set(g) | set(w), key=str) if g.get(x) != w.get(x)][:2]
+                detail += f'{k}: ' + '; '.join(f'{x!r} is {g.get(x)!r}, prescribed {w.get(x)!r}' for x in keys) + ' '
+            else:
+                detail += f'{k} is {g!r}, prescribed {w!r} '
+        chk.ob(rid, P, 'Profiles.' + '+'.join(f for f, _ in steps), label, not diffs, detail[:400] + ': the verdicts of a registry depend on what was registered and removed before')
+
     AB = [A, B]
-    for X, what in ((N, 'without macros'), (F, 'with new macros'), (S, 'whose macros shadow a built-in macro'), (T, "whose macros shadow another profile's macro")):
+    for X, what in ((S, 'whose macros shadow a built-in macro'), (S2, 'whose macros shadow a built-in macro nobody else shadows'), (T, "whose macros shadow another profile's macro"), (F, 'with new macros')):
+        sequence(f'a profile {what} added and removed again leaves the prescribed state of the rest', AB,
+                 [('addProfile', {'profile': X[0], 'properties': X[1], 'macros': X[2]}), ('removeProfile', {'profile': X[0]})], AB)
+        sequence(f'a profile {what} added, removed, and another profile added: prescribed state', AB,
+                 [('addProfile', {'profile': X[0], 'properties': X[1], 'macros': X[2]}), ('removeProfile', {'profile': X[0]}), ('addProfile', {'profile': N[0], 'properties': N[1], 'macros': None})], AB + [N])
+    sequence('everything removed, then a profile added: prescribed state', AB, [('removeProfile', {'all': True}), ('addProfile', {'profile': N[0], 'properties': N[1], 'macros': None})], [N])
+    for X, what in ((N, 'without macros'), (F, 'with new macros'), (S, 'whose macros shadow a built-in macro'), (S2, 'whose macros shadow a built-in macro nobody else shadows'), (T, "whose macros shadow another profile's macro")):
         case(f'addProfile of a profile {what}', AB, 'addProfile', {'profile': X[0], 'properties': X[1], 'macros': X[2] or None}, AB + [X])
         case(f'addProfiles with one profile {what}', AB, 'addProfiles', {'profiles': [X]}, AB + [X])
         case(f'removeProfile of a profile {what}', AB + [X], 'removeProfile', {'profile': X[0]}, AB)
